@@ -2224,7 +2224,7 @@ def case_optng(cuqi, meta):
                 res = so.minimize(lambda z: -float(BP.posterior.logd(z)), xr, jac=lambda z: -np.asarray(BP.posterior.gradient(z), dtype=float), method="BFGS", options={"gtol": 1e-11})
                 gr = np.asarray(BP.posterior.gradient(res.x), dtype=float)
                 # both points lie within |grad| / mu of the unique maximiser (C15_gauss_plus_concave_maximiser (3)): triangle inequality
-                if np.linalg.norm(res.x - x) > (np.linalg.norm(g) + np.linalg.norm(gr)) / mu * (1 + 1e-6) + 1e-12:
+                if np.linalg.norm(res.x - x) > (np.linalg.norm(g) + np.linalg.norm(gr)) / mu * (1 + 1e-6) + 1e-10:
                     fail = "returned point %s and the refined point %s are further apart (%.3g) than (|grad|+|grad_ref|)/mu = %.3g allows" % (
                         x.tolist(), res.x.tolist(), np.linalg.norm(res.x - x), (np.linalg.norm(g) + np.linalg.norm(gr)) / mu)
     if meta["op"] == "optng" and fail is None:
@@ -2410,16 +2410,28 @@ def gen_disp_metas(ctx):
     rng = ctx.rng
     out = []
     k = 0
-    for prior in ["Gaussian", "GMRF", "LMRF", "CMRF", "Laplace", "Cauchy"]:
-        for linear, mg in [(True, True), (False, True), (False, False)]:
-            for which in ("MAP", "ML"):
-                for anscls, flags in (("success", (0, 0, 0)), ("failure", (2, 1, 0)), ("failure-twice", (1, 2, 2))):
-                    m, n = rng.choice([(2, 3), (3, 2), (3, 3)])
-                    dimcls, mdi = [("normal", 2000), ("equal", max(m, n)), ("below", max(m, n) - 1)][(k // 3 + k) % 3]
-                    k += 1
-                    out.append({"op": "disp", "prior": prior, "lik": "Gaussian", "linear": linear, "model_grad": mg, "which": which, "m": m, "n": n,
-                                "A": gen_A(rng, m, n), "b": [dy(rng) for _ in range(m)], "x0": [dy(rng) for _ in range(n)] if k % 2 else None,
-                                "max_dim_inv": mdi, "dimcls": dimcls, "anscls": anscls,
+    for rep in range(ctx.n(1, 3)):
+      for prior in ["Gaussian", "GMRF", "LMRF", "CMRF", "Laplace", "Cauchy"]:
+          for linear, mg in [(True, True), (False, True), (False, False)]:
+              for which in ("MAP", "ML"):
+                  for anscls, flags in (("success", (0, 0, 0)), ("failure", (2, 1, 0)), ("failure-twice", (1, 2, 2))):
+                      m, n = rng.choice([(2, 3), (3, 2), (3, 3)])
+                      dimcls, mdi = [("normal", 2000), ("equal", max(m, n)), ("below", max(m, n) - 1)][(k // 3 + k) % 3]
+                      k += 1
+                      out.append({"op": "disp", "prior": prior, "lik": "Gaussian", "linear": linear, "model_grad": mg, "which": which, "m": m, "n": n,
+                                  "A": gen_A(rng, m, n), "b": [dy(rng) for _ in range(m)], "x0": [dy(rng) for _ in range(n)] if k % 2 else None,
+                                  "max_dim_inv": mdi, "dimcls": dimcls, "anscls": anscls,
+                                  "answers": [[[dy(rng) for _ in range(n)], f] for f in flags]})
+    # falsy-but-legitimate start point (all zeros) and degenerate sizes (one parameter, one datum)
+    for prior in ("Gaussian", "CMRF", "Laplace"):
+        for which in ("MAP", "ML"):
+            for (m, n), tag in (((3, 2), "x0-zeros"), ((1, 1), "1x1"), ((2, 1), "2x1")):
+                if n == 1 and prior == "CMRF":
+                    continue        # CMRF's constructor refuses a single node (documented)
+                for anscls, flags in (("success", (0, 0, 0)), ("failure", (1, 2, 0))):
+                    out.append({"op": "disp", "prior": prior, "lik": "Gaussian", "linear": True, "model_grad": True, "which": which, "m": m, "n": n,
+                                "A": gen_A(rng, m, n), "b": [dy(rng) for _ in range(m)], "x0": [0.0] * n if tag == "x0-zeros" else None,
+                                "max_dim_inv": 0 if tag != "x0-zeros" else 1, "dimcls": "below/" + tag, "anscls": anscls,
                                 "answers": [[[dy(rng) for _ in range(n)], f] for f in flags]})
     for lik in ("Cauchy", "Laplace"):
         for prior in ("Gaussian", "Laplace", "CMRF"):
@@ -2550,7 +2562,7 @@ def gen_select_metas(ctx):
     rng = ctx.rng
     out = []
     k = 0
-    for (ke, kx) in [("scalar", "scalar"), ("matrix", "matrix"), ("vector", "matrix"), ("matrix", "vector")]:
+    for (ke, kx) in [("scalar", "scalar"), ("matrix", "matrix"), ("vector", "matrix"), ("matrix", "vector")] * ctx.n(1, 3):
         for (m, n) in [(2, 3), (3, 2), (3, 3)]:
             for dimcls in ("normal", "equal", "below"):
                 for prior, lik, linear in ([("Gaussian", "Gaussian", True)] if dimcls != "normal" else
